@@ -183,8 +183,21 @@ func runC18(c *Check) {
 				continue
 			}
 			if Wraps(cl.Common().Args[0], func(v ssa.Value) bool {
+				if ResultOfAny(hnCalls, 0)(v) {
+					return true // the filter's reply handed on as it is
+				}
 				u, ok := v.(*ssa.UnOp)
 				if !ok || u.Op != token.MUL {
+					return false
+				}
+				if whole, isWhole := u.X.(*ssa.Alloc); isWhole {
+					// … or the local it was put in (completed with the notification message)
+					vals, _, _ := StoresTo(whole)
+					for _, sv := range vals {
+						if ResultOfAny(hnCalls, 0)(sv) {
+							return true
+						}
+					}
 					return false
 				}
 				f, base := FieldOf(u.X)
@@ -390,7 +403,7 @@ func c18Escapable(c *Check, P string, listen, lit *ssa.Function, isReply func(ss
 						continue
 					}
 					ck := ClassifyChan(cs.Chan)
-					if ck.Kind == "ctx.Done" && AllOrigins(ck.Call.Call.Value, isListenerCtx(listen)) {
+					if ck.Kind == "ctx.Done" && AllOrigins(ck.Call.Call.Value, isListenerCtx(listen)) && AnyOrigin(ck.Call.Call.Value, isDerivedCtx(listen)) {
 						ok = true
 						why = "send-or-ctx.Done()"
 					}
@@ -408,7 +421,7 @@ func c18Escapable(c *Check, P string, listen, lit *ssa.Function, isReply func(ss
 			}
 			hasCancel := false
 			for _, cs := range op.Sel.Cases {
-				if ck := ClassifyChan(cs.Chan); !cs.Send && ck.Kind == "ctx.Done" && AllOrigins(ck.Call.Call.Value, isListenerCtx(listen)) {
+				if ck := ClassifyChan(cs.Chan); !cs.Send && ck.Kind == "ctx.Done" && AllOrigins(ck.Call.Call.Value, isListenerCtx(listen)) && AnyOrigin(ck.Call.Call.Value, isDerivedCtx(listen)) {
 					hasCancel = true
 				}
 			}
@@ -434,6 +447,19 @@ func isListenerCtx(listen *ssa.Function) func(ssa.Value) bool {
 		if p, ok := o.(*ssa.Parameter); ok && p.Parent() == listen && p.Type().String() == "context.Context" {
 			return true
 		}
+		e, ok := o.(*ssa.Extract)
+		if !ok || e.Index != 0 {
+			return false
+		}
+		call, ok := e.Tuple.(*ssa.Call)
+		return ok && HomeFn(call.Parent()) == listen && (CalleeName(call) == nWithCancel || CalleeName(call) == nWithTimeout)
+	}
+}
+
+// isDerivedCtx: the context the listener derived (WithTimeout / WithCancel in ListenForNotifications) — the one its
+// timeout and its cancel act on; the caller's own context alone does not end when the timeout passes.
+func isDerivedCtx(listen *ssa.Function) func(ssa.Value) bool {
+	return func(o ssa.Value) bool {
 		e, ok := o.(*ssa.Extract)
 		if !ok || e.Index != 0 {
 			return false
